@@ -42,6 +42,11 @@ def _elements_repr(el):
     return [[str(x) for x in part] for part in el]
 
 
+def _db(d):
+    """everything a returned dot-bracket object says: letters, brackets and the pairs it decodes itself to"""
+    return [d.sequence, d.structure, sorted(list(p) for p in d.pairs)]
+
+
 def _call(obj, method):
     if method == "str":
         return str(obj)
@@ -50,18 +55,15 @@ def _call(obj, method):
     if method == "sequence":
         return obj.sequence
     if method == "dot_bracket":
-        d = obj.dot_bracket
-        return [d.sequence, d.structure]
+        return _db(obj.dot_bracket)
     if method == "fcfs":
-        d = obj.fcfs
-        return [d.sequence, d.structure]
+        return _db(obj.fcfs)
     if method == "convert_cbc":
         import pulp
 
-        d = obj.convert_to_dot_bracket(pulp.PULP_CBC_CMD(msg=False))
-        return [d.sequence, d.structure]
+        return _db(obj.convert_to_dot_bracket(pulp.PULP_CBC_CMD(msg=False)))
     if method == "all_dot_brackets":
-        return sorted([d.sequence, d.structure] for d in obj.all_dot_brackets)
+        return sorted(_db(d) for d in obj.all_dot_brackets)
     if method == "elements":
         return _elements_repr(obj.elements)
     if method == "without_pseudoknots":
